@@ -22,7 +22,7 @@ FEATURES = {"calls": True, "create": True, "static": True,
             "symbolic_target": True, "value_in_static": False,   # known finding corpus:static-call-with-value (value-bearing CALL inside a static frame)
             }                           # MSIZE is never generated: known finding corpus:msize-after-mload
 
-CFGS = [{}, {"loop": 3}, {"solver_timeout_branching": 0}, {"storage_layout": "generic"}]
+CFGS = [{}, {"loop": 3}, {"solver_timeout_branching": 0}, {"storage_layout": "generic"}, {"symbolic_storage": True}, {"symbolic_storage": True, "storage_layout": "generic"}]
 
 
 def correspond(ctx):
